@@ -1,8 +1,357 @@
 package mon
 
-import "verifharness/core"
+// C01, part 2 — the same guarantee observed through the real proxy.
+//
+// Scenario "single-writer": per resource one sequential writer replaces the stored entry
+// (Range requests against an origin that ignores Range: every one stores a new, longer or
+// shorter version), while readers fetch it plainly, slowly, or hang up mid-body, the
+// janitor ticks every millisecond; versions are stored in order, so "a request that starts
+// after a replacement completed never receives the replaced body" is checked exactly.
+// Scenario "churn": entries expire after a few milliseconds, the origin answers
+// revalidations with 304 or a new version at random, two writers per resource; only the
+// integrity / pairing oracles apply. Scenario "origin-abort": the origin cuts transfers
+// after k of N bytes, k swept.
 
-// placeholder until the proxy rig exists
-func c01RunProxy(b core.Batch, r *core.Recorder) {}
+import (
+	"fmt"
+	"net/http"
+	"strconv"
+	"strings"
+	"sync"
+	"sync/atomic"
+	"time"
 
-func c01ProxyPlan(tier string) []core.Batch { return nil }
+	"verifharness/core"
+	"verifharness/rig"
+)
+
+func c01size(res, v int) int { return 1500 + (v*977+res*131)%24000 }
+
+type c01pworld struct {
+	mu      sync.Mutex
+	ver     map[int]int // resource -> current version
+	mode    string
+	abortAt atomic.Int64 // origin-abort: cut the body of the next marked transfer after this many bytes (-1 = off)
+	rnd     func() int
+}
+
+func (w *c01pworld) handler(rw http.ResponseWriter, q *http.Request, rec *rig.OriginReq) {
+	var res int
+	fmt.Sscanf(strings.TrimPrefix(q.URL.Path, "/r"), "%d", &res)
+	w.mu.Lock()
+	cur := w.ver[res]
+	bump := q.Header.Get("X-Verif-Writer") != "" || cur == 0
+	if w.mode == "churn" && q.Header.Get("If-None-Match") != "" && w.rnd()%2 == 0 {
+		bump = true
+	}
+	if bump {
+		cur++
+		w.ver[res] = cur
+	}
+	w.mu.Unlock()
+	rec.SetNote(fmt.Sprintf("r%d:v%d", res, cur))
+	if inm := q.Header.Get("If-None-Match"); inm != "" && inm == rig.ETag(res, cur) {
+		rw.Header().Set("ETag", inm)
+		rw.WriteHeader(304)
+		return
+	}
+	n := c01size(res, cur)
+	h := rw.Header()
+	h.Set("ETag", rig.ETag(res, cur))
+	h.Set("Last-Modified", rig.LastMod(cur))
+	h.Set("Content-Type", rig.CType(res, cur))
+	h.Set("X-Verif-Len", strconv.Itoa(n))
+	h.Set("Content-Length", strconv.Itoa(n))
+	h.Set("Cache-Control", "max-age=3600")
+	rw.WriteHeader(200)
+	body := rig.Body(res, cur, n)
+	cut := int(w.abortAt.Load())
+	if cut >= 0 && q.Header.Get("X-Verif-Abort") != "" {
+		if cut > n {
+			cut = n
+		}
+		rw.Write(body[:cut])
+		if f, ok := rw.(http.Flusher); ok {
+			f.Flush()
+		}
+		panic(http.ErrAbortHandler) // the transfer breaks off here
+	}
+	// paced, so that stores are in flight while readers read
+	for off := 0; off < n; off += 4096 {
+		rw.Write(body[off:min(off+4096, n)])
+		if off%16384 == 0 {
+			time.Sleep(200 * time.Microsecond)
+		}
+	}
+}
+
+type c01presp struct {
+	Kind      string  `json:"kind"`
+	Status    int     `json:"status"`
+	V         int     `json:"version"`
+	CallMs    float64 `json:"call_ms"`
+	RetMs     float64 `json:"ret_ms"`
+	XCache    string  `json:"x_cache"`
+	Verdict   string  `json:"body_verdict"`
+	Aborted   bool    `json:"aborted_by_client,omitempty"`
+	call, ret int64
+}
+
+// c01checkResp applies the integrity / pairing oracle to one response for resource res; returns the version served.
+func c01checkResp(r *core.Recorder, cs map[string]any, res int, resp *rig.Resp, kind string) (int, string) {
+	if resp.Err != nil || resp.Aborted {
+		return -1, ""
+	}
+	viol := func(sig, what string) {
+		r.Violation("C01", "C01:proxy:"+sig, what, cs, map[string]any{"status": resp.Status, "header": resp.Header, "body_len": len(resp.Body), "head": string(resp.Body[:min(48, len(resp.Body))]), "request_kind": kind})
+	}
+	switch resp.Status {
+	case 200:
+		r.Count("proxy_200_checked", 1)
+		bv := rig.CheckFull(resp.Body, -1)
+		if cl := resp.Get("Content-Length"); cl != "" && cl != strconv.Itoa(len(resp.Body)) {
+			viol("length-mismatch:200", fmt.Sprintf("Content-Length %s, %d body bytes (%s)", cl, len(resp.Body), bv))
+			return -1, bv.String()
+		}
+		if bv.Kind != "complete" {
+			viol("body-"+bv.Kind+":200", fmt.Sprintf("200 body for resource %d is %s", res, bv))
+			return -1, bv.String()
+		}
+		if bv.R != res {
+			viol("foreign-resource:200", fmt.Sprintf("asked for resource %d, body belongs to resource %d", res, bv.R))
+			return -1, bv.String()
+		}
+		if want := c01size(res, bv.V); len(resp.Body) != want {
+			viol("truncated-or-extended-version:200", fmt.Sprintf("version %d of resource %d has %d bytes, %d were served", bv.V, res, want, len(resp.Body)))
+			return -1, bv.String()
+		}
+		if resp.Get("Etag") != rig.ETag(res, bv.V) || resp.Get("Last-Modified") != rig.LastMod(bv.V) || resp.Get("Content-Type") != rig.CType(res, bv.V) || resp.Get("X-Verif-Len") != strconv.Itoa(len(resp.Body)) {
+			viol("headers-of-another-version:200", fmt.Sprintf("body is version %d, headers say ETag=%s Last-Modified=%s Content-Type=%s X-Verif-Len=%s", bv.V, resp.Get("Etag"), resp.Get("Last-Modified"), resp.Get("Content-Type"), resp.Get("X-Verif-Len")))
+			return -1, bv.String()
+		}
+		return bv.V, bv.String()
+	case 206:
+		r.Count("proxy_206_checked", 1)
+		m := reContentRange.FindStringSubmatch(resp.Get("Content-Range"))
+		if m == nil {
+			viol("bad-content-range:206", "206 with Content-Range "+resp.Get("Content-Range"))
+			return -1, ""
+		}
+		a, _ := strconv.Atoi(m[1])
+		b, _ := strconv.Atoi(m[2])
+		tot, _ := strconv.Atoi(m[3])
+		bv := rig.CheckBody(resp.Body, a)
+		if len(resp.Body) != b-a+1 || resp.Get("Content-Length") != strconv.Itoa(b-a+1) {
+			viol("length-mismatch:206", fmt.Sprintf("Content-Range %s, Content-Length %s, %d body bytes", m[0], resp.Get("Content-Length"), len(resp.Body)))
+			return -1, bv.String()
+		}
+		if bv.Kind != "slice" || bv.R != res {
+			viol("body-"+bv.Kind+":206", fmt.Sprintf("206 body for resource %d at offset %d is %s", res, a, bv))
+			return -1, bv.String()
+		}
+		if tot != c01size(res, bv.V) || resp.Get("Etag") != rig.ETag(res, bv.V) {
+			viol("headers-of-another-version:206", fmt.Sprintf("slice is of version %d (%d bytes), Content-Range total %d, ETag %s", bv.V, c01size(res, bv.V), tot, resp.Get("Etag")))
+			return -1, bv.String()
+		}
+		return bv.V, bv.String()
+	}
+	return -1, ""
+}
+
+func c01RunProxy(b core.Batch, r *core.Recorder) {
+	rig.QuietLogs()
+	scenario := b.Str("scenario", "single-writer")
+	backend := b.Str("backend", "memory")
+	mode := rig.Mode(b.Str("transport", "plain"))
+	rng := b.Rand("c01-proxy-origin")
+	var rmu sync.Mutex
+	w := &c01pworld{ver: map[int]int{}, mode: scenario, rnd: func() int { rmu.Lock(); defer rmu.Unlock(); return rng.IntN(1000) }}
+	w.abortAt.Store(-1)
+	o := rig.StartOrigin(w.handler)
+	defer o.Close()
+	opts := rig.ProxyOpts{Backend: backend, Interval: time.Millisecond, Shards: b.Int("shards", 16)}
+	if scenario == "churn" {
+		opts.ForceDefault, opts.DefaultMaxAge = true, 4*time.Millisecond
+	}
+	p := rig.StartProxy(opts)
+	defer p.Close()
+
+	switch scenario {
+	case "single-writer", "churn":
+		resources := b.Int("resources", 3)
+		rounds := b.Int("rounds", 6)
+		for round := 0; round < rounds; round++ {
+			id := fmt.Sprintf("%s-%s-%s-%d", scenario, backend, mode, round)
+			if !r.Case(id, nil) {
+				continue
+			}
+			r.Eval(1)
+			var mu sync.Mutex
+			log := map[int][]c01presp{}
+			var wg sync.WaitGroup
+			stop := make(chan struct{})
+			cs := map[string]any{"id": id, "scenario": scenario, "backend": backend, "transport": string(mode)}
+			record := func(res int, kind string, resp *rig.Resp) {
+				v, verdict := c01checkResp(r, cs, res, resp, kind)
+				mu.Lock()
+				log[res] = append(log[res], c01presp{Kind: kind, Status: resp.Status, V: v, CallMs: float64(resp.Call) / 1e6, RetMs: float64(resp.Ret) / 1e6, XCache: resp.Get("X-Cache"), Verdict: verdict, Aborted: resp.Aborted, call: resp.Call, ret: resp.Ret})
+				mu.Unlock()
+			}
+			for res := 1; res <= resources; res++ {
+				resNo := round*100 + res
+				target := fmt.Sprintf("/r%d", resNo)
+				writers := 1
+				if scenario == "churn" {
+					writers = 2
+				}
+				// prime the entry, so that in the single-writer scenario readers only ever hit and the writer is
+				// the only one that stores
+				record(resNo, "prime", rig.Do(p, mode, o.Addr, rig.Req{Target: target}))
+				for wi := 0; wi < writers; wi++ {
+					wg.Add(1)
+					go func() {
+						defer wg.Done()
+						for i := 0; i < b.Int("writes", 12); i++ {
+							resp := rig.Do(p, mode, o.Addr, rig.Req{Target: target, Header: [][2]string{{"Range", "bytes=32-95"}, {"X-Verif-Writer", "1"}}})
+							record(resNo, "writer-range", resp)
+							time.Sleep(time.Duration(200+i*50) * time.Microsecond)
+						}
+					}()
+				}
+				for ri := 0; ri < b.Int("readers", 4); ri++ {
+					wg.Add(1)
+					rr := b.Rand(fmt.Sprintf("c01p-%d-%d-%d", round, res, ri))
+					go func() {
+						defer wg.Done()
+						for {
+							select {
+							case <-stop:
+								return
+							default:
+							}
+							q := rig.Req{Target: target}
+							kind := "get"
+							switch rr.IntN(6) {
+							case 0:
+								q.SlowReadEvery, q.SlowReadSleep = 2048, 300*time.Microsecond
+								kind = "slow-get"
+							case 1:
+								q.AbortAfterBody = 1 + rr.IntN(3000)
+								kind = "aborting-get"
+							case 2:
+								if scenario == "churn" {
+									// a reader's Range request also re-stores the entry (the origin ignores Range): a second,
+									// unordered writer, so it is kept out of the single-writer scenario
+									q.Header = [][2]string{{"Range", fmt.Sprintf("bytes=%d-%d", 16*rr.IntN(40), 16*(40+rr.IntN(40))-1)}}
+									kind = "range-get"
+								}
+							}
+							resp := rig.Do(p, mode, o.Addr, q)
+							record(resNo, kind, resp)
+						}
+					}()
+				}
+			}
+			// let the writers finish, then stop the readers
+			done := make(chan struct{})
+			go func() { wg.Wait(); close(done) }()
+			waitWriters := time.After(time.Duration(b.Int("round_ms", 400)) * time.Millisecond)
+			<-waitWriters
+			close(stop)
+			<-done
+			// ---- staleness (single writer: versions are stored in order)
+			overl := 0
+			for res, evs := range log {
+				var writes []c01presp
+				for _, e := range evs {
+					if e.Kind == "writer-range" && e.V > 0 {
+						writes = append(writes, e)
+					}
+				}
+				for _, e := range evs {
+					if e.V <= 0 {
+						continue
+					}
+					for _, wv := range writes {
+						if wv.call < e.ret && wv.ret > e.call && e.Kind != "writer-range" {
+							overl++
+							break
+						}
+					}
+					if scenario != "single-writer" {
+						continue
+					}
+					// every version served to anyone before this request started must not be newer than what it got
+					for _, prev := range evs {
+						if prev.V > e.V && prev.ret < e.call {
+							r.Violation("C01", "C01:proxy:stale-after-replacement:"+backend, fmt.Sprintf("resource %d: version %d had been served (response completed at %.2f ms) before this request started (%.2f ms), yet it received the replaced version %d", res, prev.V, prev.RetMs, e.CallMs, e.V), cs,
+								map[string]any{"earlier": prev, "later": e})
+							break
+						}
+					}
+				}
+			}
+			r.Count("proxy_reads_overlapping_writer", int64(overl))
+			if overl > 0 {
+				r.Nontrivial(scenario, backend, string(mode), round, b.Seed)
+			}
+			if round == 0 {
+				for _, evs := range log {
+					r.Sample(map[string]any{"scenario": scenario, "backend": backend, "transport": string(mode), "first_responses": evs[:min(5, len(evs))]})
+					break
+				}
+			}
+		}
+	case "origin-abort":
+		n := 0
+		for k := 0; k <= 26000; k += b.Int("stride", 512) {
+			n++
+			resNo := 5000 + n
+			target := fmt.Sprintf("/r%d", resNo)
+			id := fmt.Sprintf("abort-%s-%s-%d", backend, mode, k)
+			if !r.Case(id, k) {
+				continue
+			}
+			r.Eval(1)
+			cs := map[string]any{"id": id, "abort_after_bytes": k, "backend": backend, "transport": string(mode)}
+			w.abortAt.Store(int64(k))
+			first := rig.Do(p, mode, o.Addr, rig.Req{Target: target, Header: [][2]string{{"X-Verif-Abort", "1"}}, Timeout: 10 * time.Second})
+			w.abortAt.Store(-1)
+			c01checkResp(r, cs, resNo, first, "get-during-aborted-transfer")
+			// whatever happened to the first client, nobody may ever be served the partial body
+			for i := 0; i < 3; i++ {
+				q := rig.Req{Target: target}
+				if i == 2 {
+					q.Header = [][2]string{{"Range", "bytes=16-79"}}
+				}
+				resp := rig.Do(p, mode, o.Addr, q)
+				if resp.Err != nil {
+					r.Violation("C01", "C01:proxy:unanswered-after-origin-abort", fmt.Sprintf("after a transfer that broke off at byte %d the next request got no response: %v", k, resp.Err), cs, nil)
+					break
+				}
+				c01checkResp(r, cs, resNo, resp, "get-after-aborted-transfer")
+			}
+			r.Nontrivial("abort", backend, string(mode), k)
+			r.Count("origin_abort_points", 1)
+		}
+		r.Sample(map[string]any{"scenario": "origin-abort", "what": "the origin cuts the body of a cacheable 200 after k bytes (k swept); that request and three later ones are checked"})
+	}
+}
+
+func c01ProxyPlan(tier string) []core.Batch {
+	rounds, stride := 4, 2048
+	if tier == "thorough" {
+		rounds, stride = 30, 128
+	}
+	var bs []core.Batch
+	for _, be := range []string{"memory", "file"} {
+		for _, tr := range []string{"plain", "tunnel"} {
+			for _, sc := range []string{"single-writer", "churn"} {
+				bs = append(bs, core.Batch{Name: fmt.Sprintf("proxy-%s-%s-%s", sc, be, tr), Race: true, TimeoutS: 1800,
+					Args: map[string]any{"mode": "proxy", "scenario": sc, "backend": be, "transport": tr, "rounds": rounds}})
+			}
+		}
+		bs = append(bs, core.Batch{Name: "proxy-origin-abort-" + be, TimeoutS: 1800, Args: map[string]any{"mode": "proxy", "scenario": "origin-abort", "backend": be, "transport": "plain", "stride": stride}})
+	}
+	return bs
+}
